@@ -3,7 +3,7 @@ from bounded import harness, identitychecks
 from bounded.corpus import corpus, BOUND_TEXT
 from bounded.harness import Ctx
 
-FAMILIES = ['sel', 'inc', 'con', 'conpart', 'conn', 'dvmet']
+FAMILIES = ['sel', 'inc', 'con', 'conpart', 'conn', 'dvmet', 'mix']
 SWEEP = ['theory-example', 'nested-3', 'inc-opt-opt-1', 'con-UNORDERED-perm-2x3', 'con-LINKED-perm-2x3', 'conn-cond-0', 'dv-3', 'dv-linked-discrete']
 
 
